@@ -228,7 +228,10 @@ impl<'a, 'tcx> Hd<'a, 'tcx> {
             }
             K::AssignOp(op, l, r) => {
                 let mut v = self.base("AssignOp", e);
-                v.push(("op", J::S(op.node.as_str().to_string())));
+                // "+=" -> "+": the same operator names as for Binary
+                let ops = op.node.as_str();
+                let ops = ops.strip_suffix('=').unwrap_or(ops);
+                v.push(("op", J::S(ops.to_string())));
                 if self.tc.is_method_call(e) {
                     if let Some(did) = self.tc.type_dependent_def_id(e.hir_id) {
                         let ga = self.tc.node_args(e.hir_id);
